@@ -229,6 +229,10 @@ func runCheck(repo, prop, tier string, seed, workers int, only string) int {
 		}
 		return m, l
 	}
+	var labelFilter func(string) bool
+	if len(cfg.LabelPrefixes) > 0 {
+		labelFilter = func(l string) bool { return labelCounts(cfg.LabelPrefixes, l) }
+	}
 	var cross []smt.OneShot
 	if tier == "thorough" {
 		cross = []smt.OneShot{smt.Z3New, smt.CVC5}
@@ -252,7 +256,7 @@ func runCheck(repo, prop, tier string, seed, workers int, only string) int {
 		for _, args := range insts {
 			km, kl := mkKnown("")
 			rc := interp.RunConfig{Harness: h.Name, Args: args, MaxSteps: tc.MaxSteps, MaxDecs: tc.MaxDecs, MaxPaths: tc.MaxPaths, MaxConc: tc.MaxConc,
-				Known: km, StopOnViolation: true, CrossCheck: cross, CrossTimeout: 20 * time.Second, Solver: tc.Solver}
+				Known: km, LabelFilter: labelFilter, StopOnViolation: true, CrossCheck: cross, CrossTimeout: 20 * time.Second, Solver: tc.Solver}
 			res, err := interp.Explore(prog, pool, rc)
 			if err != nil {
 				fmt.Fprintln(os.Stderr, "explore:", err)
@@ -680,7 +684,11 @@ func replayAll(prog *interp.Program, pool *interp.Pool, repo, vd, prop string, c
 		for _, k := range c.Known {
 			km[k] = true
 		}
-		labels, outcome := pool.RunConcrete(prog, interp.RunConfig{Harness: c.Harness, Args: c.Args, Known: km}, interp.Model(c.Model))
+		var lf func(string) bool
+		if len(prefixes) > 0 {
+			lf = func(l string) bool { return labelCounts(prefixes, l) }
+		}
+		labels, outcome := pool.RunConcrete(prog, interp.RunConfig{Harness: c.Harness, Args: c.Args, Known: km, LabelFilter: lf}, interp.Model(c.Model))
 		ok := false
 		note := ""
 		switch {
